@@ -787,6 +787,10 @@ def divmod_hint(u, r, q, M, t):
     u.ctx.assume(z3.Implies(z3.And(r == q * M + t, t >= 0, t < M, M >= 1), z3.And(r % M == t, r / M == q)))
 
 
+def _red_len(r, outer):
+    return r.length(outer) if hasattr(r, "length") else r.ns[0]
+
+
 def sum_linear_hint(u, H, oH, terms, const=0, name=None, tags=None):
     """Instance of lemma sum.linear: if summand_H(k) = sum_i coef_i * summand_i(k) + const for every k then
     H = sum_i coef_i * S_i + n * const.  terms = [(coef, tensor, outer)].
@@ -796,7 +800,7 @@ def sum_linear_hint(u, H, oH, terms, const=0, name=None, tags=None):
     if rH is None or any(_red_of(t) is None for _, t, _ in terms):
         return
     oH = tuple(oH) if isinstance(oH, (tuple, list)) else (oH,)
-    n = zint(rH.ns[0])
+    n = zint(_red_len(rH, oH))          # (the length may depend on the outer index: prefix sums)
     k = z3.Int(f"klin_{next(u.ctx.fresh_ids)}" if name is None else f"{name}.k")
     rhs_body = zreal_(const)
     rhs = z3.ToReal(n) * zreal_(const)
@@ -806,7 +810,7 @@ def sum_linear_hint(u, H, oH, terms, const=0, name=None, tags=None):
         o = tuple(o) if isinstance(o, (tuple, list)) else (o,)
         rhs_body = rhs_body + zreal_(coef) * r.body(o, (k,))
         rhs = rhs + zreal_(coef) * r.app(o)
-        same_len.append(zint(r.ns[0]) == n)
+        same_len.append(zint(_red_len(r, o)) == n)
     if name is None:
         agree = z3.ForAll([k], z3.Implies(z3.And(k >= 0, k < n), rH.body(oH, (k,)) == rhs_body))
         u.ctx.assume(z3.Implies(z3.And(agree, *same_len), rH.app(oH) == rhs))
